@@ -19,7 +19,8 @@ EXPLANATION = (
     'so native "failed" <=> pytest item raises. R4 on non-failing paths through one iteration of the part loop a path with a skip record stores '
     'no captured stdout and a path without one stores it, hence the plugin\'s "nothing ran" <=> the native all-parts-skipped; run()\'s own '
     'pytest.skip is edge-dominated by mode == "pytest". R5 the plugin skips disabled doctests before running them and the two disable-pattern '
-    'lists differ exactly by the entries added on the pytest branch. pytest\'s own reporting is not decided.')
+    'lists differ exactly by the entries added on the pytest branch. pytest\'s own reporting is not decided.'
+    " R2b environment defaults are keyed by the option name before the front-end prefix is applied. R4 also over iterations that absorbed an expected exception. R5 both modes apply the disable patterns with the same flags and method (abstract evaluation of strings, lists and compiled patterns). R7 the graceful-exit handler names pytest's Skipped.")
 DECIDES = ['TABLE-AGREE one collector', 'TABLE-AGREE one option table', 'PAIRING record <=> raise', 'skip predicate coincidence', 'disabled doctests']
 NOT_DECIDED = ['pytest\'s and the native runner\'s output formats', 'exit-code plumbing inside pytest']
 
